@@ -528,13 +528,24 @@ def _run_unit(case, out):
         if out.disc:
             return
         # binary with a second operand in another unit: arbitrary value, and the same display value
-        for w2 in (w, v):
-            want2 = _exact_product(w2, f2)
+        # ... and two NEAR-EQUAL operands (SI values one or a few ulps apart): the same physical amount expressed in
+        # the other unit, and the next double in the same unit - equality must still be decided on the SI values
+        trials = [(w, u2, f2), (v, u2, f2)]
+        if f2 != 0 and isinstance(v, float) or isinstance(v, int):
+            try:
+                trials.append((float(v) * f / f2, u2, f2))
+                trials.append((math.nextafter(float(v), math.inf), u, f))
+            except (OverflowError, ZeroDivisionError):
+                pass
+        for ti_, (w2, u2_, f2_) in enumerate(trials):
+            if isinstance(w2, float) and (math.isnan(w2) or math.isinf(w2)):
+                continue
+            want2 = _exact_product(w2, f2_)
             if math.isinf(want2) or (want2 != 0.0 and abs(want2) < 1e-290):
                 continue
-            d2 = dict(det, other_unit=u2, other_v=repr(w2))
+            d2 = dict(det, other_unit=u2_, other_v=repr(w2))
             try:
-                p = c(w2, u2)
+                p = c(w2, u2_)
                 s2 = float.__float__(p)
                 if not _same(s2, want2):
                     out.fail("si-value", dict(d2, got=s2.hex(), want=want2.hex()))
@@ -549,13 +560,15 @@ def _run_unit(case, out):
                     return
                 _check_result(out, c, q + p, si + s2, u, f, "add", d2)
                 _check_result(out, c, q - p, si - s2, u, f, "sub", d2)
-                _check_result(out, c, p - q, s2 - si, u2, f2, "sub", d2)
+                _check_result(out, c, p - q, s2 - si, u2_, f2_, "sub", d2)
             except Exception as ex:
                 out.fail("binary-raises", dict(d2, error=repr(ex)))
             if out.disc:
                 return
-            if (v < w2) != (si < s2) or (v == w2) != (si == s2):
+            if ti_ < 2 and ((v < w2) != (si < s2) or (v == w2) != (si == s2)):
                 out.label("display-order!=si-order")
+            if ti_ >= 2 and si != s2 and abs(si - s2) <= 1e-12 * max(abs(si), abs(s2)):
+                out.label("near-equal-si-values-compared")
     out.info = {"cls": cn, "unit": u, "factor": f}
 
 
